@@ -78,6 +78,11 @@ def parseLib (s : String) : Option (Option Bytes) :=
 def c31Step (s : Sess) (line : String) : Sess × String :=
   match fields line with
   | ["reset"] => (⟨init, []⟩, "ok")
+  -- `content <i> <strict> <fresh>`: the cache-free reading `contentOf` of message i in the current model state
+  | ["content", i, st, f] =>
+    match parseBool i, parseBool st, parseFresh f with
+    | some i, some st, some f => (s, showRes (contentOfWith (s.st.msg i) st f))
+    | _, _, _ => bad s
   -- `own <custom_decode key> <x> <lib1> <lib2>`: mitmproxy's own decoder function for that key, as transcribed
   | ["own", n, x, l1, l2] =>
     match hexOr n, hexOr x, parseLib l1, parseLib l2 with
